@@ -1,7 +1,60 @@
 import SshAudit.Driver.WireOps
+import SshAudit.Model.Gex
+import SshAudit.Gen.Tables
 namespace SshAudit.Driver
+open SshAudit SshAudit.Gex
 
-/-- line-protocol operations of the Gex model (stub; filled in when the model lands) -/
-def gexOp (_op : String) (_args : List String) : Option J := none
+def decResp (tok : String) : Option Resp :=
+  if tok = "f" then some .failed else if tok = "r" then some .noReconnect
+  else if tok.startsWith "s" then (tok.drop 1).toNat?.map Resp.size else none
+
+def decResps (tok : String) : Option (List Resp) :=
+  if tok = "_" then some [] else (tok.splitOn ",").mapM decResp
+
+/-- a server that answers the probes from a fixed list, in order (exhausted = refuses) -/
+def streamSrv : List Resp → Probe → Resp × List Resp
+  | [], _ => (.failed, [])
+  | r :: rs, _ => (r, rs)
+
+/-- entry description: slots separated by `;`, each `_` (empty) or `,`-separated optional strings -/
+def decDesc (tok : String) : Option (List (List (Option Str))) :=
+  (tok.splitOn ";").mapM fun (sl : String) =>
+    if sl = "_" then some [] else (sl.splitOn ",").mapM decOptStr
+
+def jdesc (d : List (List (Option Str))) : J := .arr (d.map fun l => .arr (l.map (J.ofOpt .str)))
+def jprobe (p : Probe) : J := .arr [.nat p.1, .nat p.2.1, .nat p.2.2]
+
+/-- `GEXTest.run`: every offered group-exchange algorithm in table order, stopping after a failed reconnect -/
+def gexAudit (isOpenSSH : Bool) (kexList : List Str) (answers : List Resp) : List J :=
+  let rec go (algs : List Str) (st : List Resp) (acc : List J) : List J :=
+    match algs with
+    | [] => acc
+    | a :: rest =>
+      if kexList.contains a then
+        let res := run streamSrv st isOpenSSH
+        let j := J.obj [("alg", .str a), ("reported", J.ofOpt J.nat res.reported), ("note", .bool res.fallbackNote),
+                        ("probes", .arr (res.trace.map (fun pr => jprobe pr.1)))]
+        if res.stop then acc ++ [j] else go rest res.srvSt (acc ++ [j])
+      else go rest st acc
+  go Gen.gexAlgs answers []
+
+def styleOf (tok : String) : Option (List Nat → Unit → Probe → Resp × Unit) :=
+  if tok = "strict" then some strict else if tok = "roundup" then some roundUp else if tok = "openssh" then some opensshStyle else none
+
+def gexOp (op : String) (args : List String) : Option J :=
+  match op, args with
+  | "gex.audit", [o, k, a] => do
+    let o ← decBool o; let k ← decStrs k; let a ← decResps a
+    pure (jok (.arr (gexAudit o k a)))
+  | "gex.rate", [d, n, f] => do
+    let d ← decDesc d; let n ← decNat n; let f ← decBool f
+    pure (jok (jdesc (rate d n f)))
+  | "gex.family", [st, m, o] => do
+    let st ← styleOf st
+    let m ← if m = "_" then some [] else (m.splitOn ",").mapM (fun (x : String) => x.toNat?)
+    let o ← decBool o
+    let res := run (st m) () o
+    pure (jok (.obj [("reported", J.ofOpt J.nat res.reported), ("note", .bool res.fallbackNote), ("probes", .arr (res.trace.map (fun pr => jprobe pr.1)))]))
+  | _, _ => none
 
 end SshAudit.Driver
